@@ -26,9 +26,9 @@
                        mark (they are copied into Go comments and a raw string literal; go/format rejects the
                        file otherwise)
 
-  `KnownDefectFree` lists the inputs inside the domain on which the CURRENT generator is known to fail
-  (recorded as known findings): package name a Go keyword or `main`, the substring test for imports
-  disagreeing with actual use, `@IMPORTS@` inside the interface documentation.
+  No further condition: the four defects that used to be excluded here as `KnownDefectFree` (package name a
+  Go keyword or `main`, imports chosen by substring tests, `@IMPORTS@` inside the interface documentation)
+  have been repaired in the generator (dfa0aa0, a32447a, a04eec4) and their guards removed.
 -/
 import Varlink.Gen.View
 import Varlink.Gen.Check
@@ -209,47 +209,5 @@ def domainChecks : List (String × (Idl → Bool)) :=
 
 /-- name of the first domain condition that fails -/
 def outsideBecause (t : Idl) : Option String := (domainChecks.find? (fun c => !c.2 t)).map (·.1)
-
-/-! ## inputs inside the domain on which the current generator is known to fail -/
-
-/-- the package name is usable (not a Go keyword, not `main`) -/
-def pkgNameUsable (t : Idl) : Bool :=
-  !goKeywords.contains (pkgName t.name) && pkgName t.name != str "main"
-
-mutual
-def tyUsesObject : Ty → Bool
-  | .object => true
-  | .maybe t => tyUsesObject t
-  | .array t => tyUsesObject t
-  | .map t => tyUsesObject t
-  | .struct fs => fsUsesObject fs
-  | _ => false
-def fsUsesObject : Fields → Bool
-  | .nil => false
-  | .typed _ t r => tyUsesObject t || fsUsesObject r
-  | .bare _ r => fsUsesObject r
-end
-
-/-- the emitted code refers to package json: an error exists (Dispatch_Error) or some type is `object` -/
-def usesJson (t : Idl) : Bool :=
-  !t.errors.isEmpty || t.members.any fun m => m.types.any tyUsesObject
-
-/-- the emitted code refers to package fmt: some error has parameters -/
-def usesFmt (t : Idl) : Bool :=
-  t.members.any fun m => match m with
-    | .error _ _ oty => !(tyFields (errTy oty)).isNil
-    | _ => false
-
-/-- the substring test of main.go:537-545 agrees with what the code uses -/
-def importsExact (t : Idl) : Bool :=
-  match bodyText t with
-  | some body =>
-    (contains (str "json.RawMessage") body == usesJson t) && (contains (str "fmt.Sprintf") body == usesFmt t)
-  | none => true
-
-/-- `@IMPORTS@` in the interface documentation is replaced instead of the placeholder -/
-def placeholderSafe (t : Idl) : Bool := !contains (str "@IMPORTS@") t.doc
-
-def KnownDefectFree (t : Idl) : Bool := pkgNameUsable t && importsExact t && placeholderSafe t
 
 end Varlink.Gen
